@@ -55,7 +55,7 @@ def gen_election(rng, n_states=None, n_units=None, office=None, unit_type=None, 
         unit_type = rng.choice(["county-district", "precinct-district"]) if district else rng.choice(["county", "precinct"])
     n_states = n_states or rng.randint(1, 3)
     states = STATE_POOL[:n_states]
-    n_units = n_units or rng.randint(30, 90)
+    n_units = n_units or rng.randint(45, 110)
     rows = []
     seen = set()
     per_state = max(1, n_units // n_states)
@@ -139,7 +139,7 @@ def gen_feed(rng, case, frac_reporting=None, threshold=100, special=True, n_unex
     notes = {}
     swing = rng.uniform(-0.08, 0.08)
     if frac_reporting is None:
-        frac_reporting = rng.choice([0.3, 0.5, 0.7, 0.9, 1.0])
+        frac_reporting = rng.choice([0.4, 0.5, 0.7, 0.7, 0.9, 1.0])
     idx = list(range(len(base)))
     rng.shuffle(idx)
     n_rep = int(round(frac_reporting * len(base)))
@@ -275,7 +275,7 @@ def gen_params(rng, case, pi_method=None, estimands=None):
     fes = {}
     if rng.random() < 0.35 and pi_method != "bootstrap":
         fes = rng.choice([{"postal_code": "all"}, {"county_classification": "all"}, ["county_classification"]])
-    alphas = rng.choice([[0.7], [0.9], [0.7, 0.9], [0.5, 0.8, 0.95]])
+    alphas = rng.choice([[0.7], [0.9], [0.7, 0.9], [0.5, 0.8], [0.6, 0.8, 0.9]])
     params = {
         "estimands": estimands,
         "prediction_intervals": alphas,
@@ -293,11 +293,29 @@ def gen_params(rng, case, pi_method=None, estimands=None):
 def gen_case(rng, pi_method=None, threshold=None, **kw):
     case = gen_election(rng, **{k: v for k, v in kw.items() if k in ("n_states", "n_units", "office", "unit_type", "with_district")})
     params = gen_params(rng, case, pi_method=pi_method, estimands=kw.get("estimands"))
+    if kw.get("aggregates") is not None:
+        params["aggregates"] = list(kw["aggregates"])
+    if kw.get("alphas") is not None:
+        params["prediction_intervals"] = list(kw["alphas"])
+    if kw.get("features") is not None:
+        params["features"] = list(kw["features"])
+    if kw.get("fixed_effects") is not None:
+        params["fixed_effects"] = kw["fixed_effects"]
+    if kw.get("handle_unreporting") is not None:
+        params["handle_unreporting"] = kw["handle_unreporting"]
+    if kw.get("model_parameters") is not None:
+        params["model_parameters"].update(kw["model_parameters"])
     thr = threshold if threshold is not None else rng.choice([100, 100, 100, 99, 50, 1])
     params["percent_reporting_threshold"] = thr
     case["params"] = params
+    n_unx = kw.get("n_unexpected")
+    if params["pi_method"] == "bootstrap" and kw.get("avoid_boot_nan_key", True):
+        # an unexpected unit with a missing key column makes the bootstrap aggregation raise (finding F15, decided by C11)
+        aggs_ = params["aggregates"]
+        if "county_classification" in aggs_ or (case["office"] in ("H", "Y", "Z") and "district" not in aggs_):
+            n_unx = 0
     case["feed"] = gen_feed(rng, case, frac_reporting=kw.get("frac_reporting"), threshold=thr,
-                            special=kw.get("special", True), n_unexpected=kw.get("n_unexpected"))
+                            special=kw.get("special", True), n_unexpected=n_unx)
     # blocklists
     mp = params["model_parameters"]
     if kw.get("blocklist", True) and rng.random() < 0.4:
